@@ -68,3 +68,8 @@ add("C10", "exploration",
     "Held on the executions explored: for every call (0-200 notifications, sizes to 256 KiB, progress / log / custom, _meta absent / empty / present, up to 16 calls in flight on one client, stateful and stateless) the handlers saw exactly the emitted sequence, each before the call returned, parameters and _meta intact, result intact; event ids per stream pairwise distinct; with JSON answers or without handlers nothing was delivered and the result was unchanged.",
     "Handler timing is judged by logical clock. Notifications are emitted by one goroutine per call here (concurrent emitters are C09).",
     "DESIGN.md section 4 C10")
+add("C12", "exploration",
+    "runtime monitoring: concurrent histories recorded at the API boundary and checked for linearizability with porcupine against an ordered-map registry model (version tags make reads identify writes); hammer workload in a normal child (runtime concurrent-map detector, process death) and in a race-detector child (reports on registry functions)",
+    "Held on the executions explored: every concurrent history of register / unregister / list / call / get / read on the tools, prompts and resources registries was linearizable (no torn, duplicate or phantom entry, resources in registration order, entries registered throughout always callable, never-registered ones refused, handlers replaced atomically); no process death and no race report on a registry under the hammer workload.",
+    "Porcupine timeouts are inconclusive. The static lockset analysis of the anchor is replaced by dynamic detectors on the driven paths.",
+    "DESIGN.md section 4 C12")
